@@ -20,7 +20,7 @@ glom = env.bind()
 import glom as g  # noqa: E402
 from glom import (T, S, A, GlomError, PathAccessError, CoalesceError, UnregisteredTarget, BadSpec, PathAssignError,  # noqa: E402
                   PathDeleteError, FoldError, MatchError, TypeMatchError, CheckError, Coalesce, Match, Check, Fold, Sum,
-                  Flatten, Merge, Assign, Delete, M, Switch, Or, And, Not, Val, Iter, glom as G)
+                  Flatten, Merge, Assign, Delete, Spec, M, Switch, Or, And, Not, Val, Iter, glom as G)
 from glom.grouping import Group  # noqa: E402
 
 META = {
@@ -500,6 +500,10 @@ def glom_detected(col):
         ('unregistered inside Merge subspec', {'rows': 2.5}, Merge(('rows', [T])), UnregisteredTarget),
         ('unregistered inside Fold subspec', {'rows': 5}, Fold(('rows', [T]), init=int), UnregisteredTarget),
         ('missing path inside Sum subspec', {}, Sum('rows'), PathAccessError),
+        # the VALUE spec of an Assign fails (the destination, present or to be created, has nothing to do with it)
+        ('assign value spec fails, missing= given', {'a': {}}, Assign('a.b.c', Spec('x.y'), missing=dict), PathAccessError),
+        ('assign value T fails, missing= given', {'a': {}}, Assign('a.b', T['nope'], missing=dict), PathAccessError),
+        ('assign value spec fails', {'a': {}}, Assign('a.b', Spec('x.y')), PathAccessError),
     ]
     for name, target, spec, cls in table:
         for cell, kw in matrix(ValueError()):
